@@ -130,6 +130,10 @@ def run_matrix_inputs(h, N, perm):
         got = h.cells(obj.matrix)
         h.check(f"{nm}: same matrix in the requested class order", len(got) == N * N and h.And([h.eq(a, b, 0) for a, b in zip(got, ref)]))
         h.check(f"{nm}: classes as requested", [str(c) for c in h.cells(obj.classes)] == order)
+    # DataFrame with permuted columns and NO classes argument: classes come from the index, entries by label
+    fd = h.sa.ConfusionMatrix(matrix=frame2)
+    h.check("DataFrame with permuted columns, classes=None: rows/columns matched by label, index order",
+            [str(c) for c in h.cells(fd.classes)] == names and h.And([h.eq(a, b, 0) for a, b in zip(h.cells(fd.matrix), [E[i][j] for i in range(N) for j in range(N)])]))
     got = h.cells(as_dict_default.matrix)
     h.check("dict of dicts without classes: key order", h.And([h.eq(a, b, 0) for a, b in zip(got, [E[i][j] for i in range(N) for j in range(N)])]))
     for bad in (["a", "x", "c"][:N], names[:-1]):
